@@ -9,7 +9,9 @@ Case layout
 `<x>`, `<d>`: `k v1 … vk` (real) or `k re1 im1 …` (complex).  One filter object is constructed; per frame
 `set_lock_coeffs(lock)` then `process(x, d)` (state persists).
 Output, `mode = 0`: per frame `y e coeffs()` — or `ERR coeffs()` when `process` throws (`len(x) != len(d)`);
-`mode = 1`: `coeffs()` after the last frame only. -/
+`mode = 1`: `coeffs()` after the last frame only;
+`mode = 2` (long single calls): per frame the digest `pick y`, `pick e` (every 4093rd and the last element) — or `ERR` —
+and `coeffs()` after the last frame. -/
 namespace Dsp.Driver
 open Dsp.Proto Dsp.Adaptive
 
@@ -25,15 +27,25 @@ def takeAFrames {τ : Type} (take : List String → Option (Array τ × List Str
     pure ((lk == "1", x, d) :: t)
   | _ + 1, [] => none
 
+/-- indices of the digest of an array of size `n`: `0, 4093, 2·4093, …` and `n - 1` -/
+def digestIdx (n : Nat) : List Nat :=
+  let base := (List.range ((n + 4092) / 4093)).map (· * 4093)
+  if n > 0 ∧ (n - 1) % 4093 ≠ 0 then base ++ [n - 1] else base
+
+def pick {τ : Type} (a : Array τ) : Array τ := ((digestIdx a.size).filterMap (a[·]?)).toArray
+
 /-- run the frames through `step : state → lock → x → d → Except (state × y × e)`; `co` = `coeffs()` -/
 def runAFrames {σ τ : Type} (fmt : Array τ → String) (mode : Nat)
     (step : σ → Bool → Array τ → Array τ → Except String (σ × Array τ × Array τ)) (co : σ → Array τ)
     (s0 : σ) (frames : List (Bool × Array τ × Array τ)) : String :=
   let (sN, outs) := frames.foldl (fun (acc : σ × List String) f =>
     match step acc.1 f.1 f.2.1 f.2.2 with
-    | .ok (s', y, e) => (s', fmt (co s') :: fmt e :: fmt y :: acc.2)
-    | .error _ => (acc.1, fmt (co acc.1) :: "ERR" :: acc.2)) (s0, [])
-  if mode = 1 then fmt (co sN) else String.intercalate " " outs.reverse
+    | .ok (s', y, e) =>
+      (s', if mode = 2 then fmt (pick e) :: fmt (pick y) :: acc.2 else fmt (co s') :: fmt e :: fmt y :: acc.2)
+    | .error _ => (acc.1, if mode = 2 then "ERR" :: acc.2 else fmt (co acc.1) :: "ERR" :: acc.2)) (s0, [])
+  if mode = 1 then fmt (co sN)
+  else if mode = 2 then String.intercalate " " (outs.reverse ++ [fmt (co sN)])
+  else String.intercalate " " outs.reverse
 
 def h12 : List String → Option String
   | "lms" :: cx :: nlms :: len :: mu :: leak :: mode :: nf :: rest => do
